@@ -481,3 +481,13 @@ Theorem C10_kernel_Read3Size :
 Proof. exact go_Read3Size_nvar_tie. Qed.
 Print Assumptions C10_kernel_Read3Size.
 
+
+(* ---- format constants ----
+   The models take their format constants from Gen/Consts.v, which is regenerated from /repo's
+   source on every run; Spec/ConstPins.v (committed, written by bin/mkpins) pins every one of them
+   to the value the specifications give it.  A constant that drifts in the Go source breaks this
+   theorem instead of being silently followed by model and generator. *)
+From Fiano Require Spec.ConstPins.
+Theorem C10_format_constants_pinned : Spec.ConstPins.pinned_c10.
+Proof. exact Spec.ConstPins.pins_c10. Qed.
+Print Assumptions C10_format_constants_pinned.
